@@ -168,7 +168,7 @@ def run_cases(chk, cases):
             c = cases[i]
             for lang in langs:
                 r = per[lang]
-                if r["status"] in ("panic", "abort"):
+                if r["status"] in ("panic", "abort", "hang"):
                     continue
                 if r["status"] == "unreadable":
                     chk.extra.setdefault("unreadable_outputs", {}).setdefault(lang, 0)
